@@ -257,13 +257,16 @@ func (s *IndexedState) Add(ctx *Context, id string, x Map) (string, error) {
 	delete(s.cachedRules, id)
 	s.slock(ctx, false)
 	id, err := s.add(ctx, id, x)
+	// Store what was prepared (with the absolute 'expires'), not
+	// the caller's map (which may have a relative 'ttl').
+	fact := s.IdToFact[id]
 	s.sunlock(ctx, false)
 
 	if nil != err {
 		return "", err
 	}
 
-	js, err := json.Marshal(&x)
+	js, err := json.Marshal(&fact)
 	if err != nil {
 		return "", err
 	}
